@@ -10,6 +10,7 @@ VERIF = os.path.dirname(os.path.dirname(os.path.abspath(__file__)))
 REPO = os.environ.get("VERIF_REPO", "/repo")
 CACHE = os.environ.get("VERIF_CACHE", os.path.join(VERIF, ".cache"))
 SRE = os.path.join(VERIF, "engine", "sre")
+SBV = os.path.join(VERIF, "engine", "sbv")
 LIFT = os.path.join(VERIF, "engine", "lift")
 GUARD = "NANO_VERIF"
 CLANG = "clang++-14"
@@ -86,7 +87,7 @@ def tools_dir():
 
 
 def build_tools(verbose=False):
-    """symfp.so, symrt.o, symrt_concrete.o, ir2c, irmark"""
+    """symfp.so, symrt.o, symrt_concrete.o, ir2c, irmark, sbv.o, sbv_native.o"""
     with Lock("tools"):
         td = tools_dir()
         os.makedirs(td, exist_ok=True)
@@ -121,6 +122,17 @@ def build_tools(verbose=False):
             if k:
                 jobs.append((out, k, [CLANG, "-O1", "-w"] + LLVM_CXX + ["-fno-exceptions", src, "-o", out] + LLVM_LD))
 
+        sbv_srcs = [os.path.join(SBV, f) for f in ("sbv.cpp", "sbv_core.h", "sbv_val.h", "sbv.h", "sbv_calls.inc", "sbv_exec.inc", "sbv_main.inc")]
+        out = os.path.join(td, "sbv.o")
+        k = need(out, sbv_srcs)
+        if k:
+            cxx = [f for f in LLVM_CXX if f not in ("-fno-exceptions", "-fno-rtti") and not f.startswith("-std=")]
+            jobs.append((out, k, [CLANG, "-std=c++17", "-O1", "-w"] + cxx + ["-fexceptions", "-frtti", "-I" + SBV, "-c", sbv_srcs[0], "-o", out]))
+        out = os.path.join(td, "sbv_native.o")
+        k = need(out, [os.path.join(SBV, "sbv_native.cpp"), os.path.join(SBV, "sbv.h")])
+        if k:
+            jobs.append((out, k, [CLANG, "-std=c++17", "-O1", "-w", "-fPIC", "-I" + SBV, "-c", os.path.join(SBV, "sbv_native.cpp"), "-o", out]))
+
         def run(j):
             out, k, cmd = j
             sh(cmd)
@@ -141,7 +153,7 @@ def overridable_file():
 
 def flags_key():
     toolsrc = [os.path.join(SRE, "symfp.cpp"), overridable_file()]
-    return hashlib.sha256((" ".join(BASE_FLAGS) + "".join(fhash(s) for s in toolsrc) + "v3").encode()).hexdigest()
+    return hashlib.sha256((" ".join(BASE_FLAGS) + "".join(fhash(s) for s in toolsrc) + "v4").encode()).hexdigest()
 
 
 def repo_sources():
@@ -174,31 +186,32 @@ def deps_key(depfile, src, fkey):
     return h.hexdigest()
 
 
-def compile_unit(src, outdir, name, extra_flags=(), want_plain=True):
-    """front end -> .bc (unoptimised) -> [symmark, O1, symfp] -> sym.o ; [symmark, O1] -> plain.o ; cached"""
+def compile_unit(src, outdir, name, extra_flags=(), want_plain=True, want_sym=True):
+    """front end -> .bc (unoptimised) -> [symmark, O1, symfp] -> sym.o ; [symmark, O1] -> plain.bc (kept: interpreted by the
+    SBV engine) -> plain.o ; cached"""
     fkey = flags_key() + " ".join(extra_flags)
     base = os.path.join(outdir, name)
     dep, keyf = base + ".d", base + ".key"
     symo, plaino = base + ".sym.o", base + ".plain.o"
     k = deps_key(dep, src, fkey)
-    if (k is not None and os.path.exists(keyf) and open(keyf).read() == k and os.path.exists(symo)
-            and (os.path.exists(plaino) or not want_plain)):
+    if (k is not None and os.path.exists(keyf) and open(keyf).read() == k and (os.path.exists(symo) or not want_sym)
+            and ((os.path.exists(plaino) and os.path.exists(base + ".plain.bc")) or not want_plain)):
         return False
     env = dict(os.environ, SYMFP_OVERRIDABLE=overridable_file())
     plugin = os.path.join(tools_dir(), "symfp.so")
     bc = base + ".bc"
     sh([CLANG] + BASE_FLAGS + list(extra_flags) + inc_flags() + ["-Xclang", "-disable-llvm-passes", "-emit-llvm", "-c",
                                                                  src, "-o", bc, "-MD", "-MF", dep])
-    sh([OPT, "-load-pass-plugin", plugin, "-passes=symmark,default<O1>,symfp", bc, "-o", base + ".sym.bc"], env=env)
-    sh([LLC, "-O2", "-filetype=obj", "-relocation-model=pic", base + ".sym.bc", "-o", symo])
-    weaken(symo)
+    if want_sym:
+        sh([OPT, "-load-pass-plugin", plugin, "-passes=symmark,default<O1>,symfp", bc, "-o", base + ".sym.bc"], env=env)
+        sh([LLC, "-O2", "-filetype=obj", "-relocation-model=pic", base + ".sym.bc", "-o", symo])
+        weaken(symo)
+        os.remove(base + ".sym.bc")
     if want_plain:
         sh([OPT, "-load-pass-plugin", plugin, "-passes=symmark,default<O1>", bc, "-o", base + ".plain.bc"], env=env)
         sh([LLC, "-O2", "-filetype=obj", "-relocation-model=pic", base + ".plain.bc", "-o", plaino])
         weaken(plaino)
-        os.remove(base + ".plain.bc")
     os.remove(bc)
-    os.remove(base + ".sym.bc")
     k = deps_key(dep, src, fkey)
     open(keyf, "w").write(k)
     return True
@@ -268,6 +281,34 @@ def build_harness(name, sources, verbose=False, extra_flags=(), exclude=()):
             sh([CLANG, "-o", exe_p] + objs_p + [os.path.join(td, "symrt_concrete.o")] + plain + ["-lpthread", "-lm"])
             open(kf, "w").write(lk)
     return exe_s, exe_p, st
+
+
+def build_sbv_harness(name, sources, verbose=False, extra_flags=()):
+    """SBV engine: harness -> plain.bc (interpreted) + plain.o (linked natively, twice: with the interpreter and with the native
+    API implementation). Returns (exe_sbv, exe_native, modules_file, stats)"""
+    sym, plain, st = build_lib(verbose)
+    hd = os.path.join(CACHE, "harness", name)
+    os.makedirs(hd, exist_ok=True)
+    with Lock("harness_" + name):
+        objs, bcs = [], []
+        ef = ["-fno-access-control", "-I" + SBV, "-I" + os.path.join(VERIF, "harness", "sbv")] + list(extra_flags)
+        for s in sources:
+            n = os.path.basename(s)[:-4]
+            compile_unit(s, hd, n, ef, want_plain=True, want_sym=False)
+            objs.append(os.path.join(hd, n + ".plain.o"))
+            bcs.append(os.path.join(hd, n + ".plain.bc"))
+        td = tools_dir()
+        exe_s, exe_n = os.path.join(hd, name + ".sbv"), os.path.join(hd, name + ".native")
+        mods = os.path.join(hd, "modules.txt")
+        libbc = [o[:-2] + ".bc" for o in plain]
+        open(mods, "w").write("\n".join(bcs + libbc) + "\n")
+        lk = hashlib.sha256("".join(fhash(o) for o in objs + plain + [os.path.join(td, "sbv.o"), os.path.join(td, "sbv_native.o")]).encode()).hexdigest()
+        kf = os.path.join(hd, "link.key")
+        if not (os.path.exists(exe_s) and os.path.exists(exe_n) and os.path.exists(kf) and open(kf).read() == lk):
+            sh([CLANG, "-rdynamic", "-o", exe_s, os.path.join(td, "sbv.o")] + objs + plain + LLVM_LD + ["-lz3", "-ldl", "-lpthread", "-lm"])
+            sh([CLANG, "-o", exe_n, os.path.join(td, "sbv_native.o")] + objs + plain + ["-lpthread", "-lm"])
+            open(kf, "w").write(lk)
+    return exe_s, exe_n, mods, st
 
 
 if __name__ == "__main__":
